@@ -150,6 +150,10 @@ class Engine(object):
         if isinstance(f, ast.Attribute) and isinstance(f.value, ast.Call) and isinstance(f.value.func, ast.Name) \
                 and f.value.func.id == 'super':
             cls = f.value.args[0].id
+            for x_ in self.ext:
+                r_ = x_.super_call(self, ex, cls, f.attr, e, path)
+                if r_ is not None:
+                    return r_
             recv = ex.ev(f.value.args[1], path)
             base = self.base_of(cls)
             args = [ex.ev(a, path) for a in e.args]
@@ -183,6 +187,24 @@ class Engine(object):
                 r = x.call_func(self, ex, fn, args, kwargs, path, e)
                 if r is not None:
                     return r
+        if fn.ty == 'lambda':
+            # the body is evaluated in the CURRENT environment of the caller (Python's late binding
+            # of free variables), with the parameters bound on top
+            lam = fn.x
+            names = [a_.arg for a_ in lam.args.args]
+            if len(names) != len(args):
+                raise Unsupported('lambda arity')
+            saved = {n_: path.env.get(n_) for n_ in names}
+            for n_, v_ in zip(names, args):
+                path.env[n_] = v_
+            try:
+                return ex.ev(lam.body, path)
+            finally:
+                for n_, v_ in saved.items():
+                    if v_ is None:
+                        path.env.pop(n_, None)
+                    else:
+                        path.env[n_] = v_
         if fn.ty == 'bound':
             base, attr = fn.x
             return self.method(ex, base, attr, args, kwargs, path, e)
@@ -591,6 +613,11 @@ class Engine(object):
             c.yP = p.ghosts.get('yP', hp.empty_rel())
             if kind == 'return':
                 n_ret += 1
+                for x_ in self.ext:
+                    v2 = x_.coerce_return(self, ex, val, k.ret, p)
+                    if v2 is not None:
+                        val = v2
+                        break
                 c.res = val
                 if k.ret not in (None, 'none', 'any') and val.ty != k.ret and not k.generator:
                     if not (k.ret == 'graph' and val.ty == 'kripke') and not (k.ret.startswith('coll:') and val.ty == 'coll'):
@@ -809,6 +836,12 @@ class Extension(object):
         return None
 
     def seq_comprehension(self, E, ex, e, g, coll, path):
+        return None
+
+    def super_call(self, E, ex, cls, attr, node, path):
+        return None
+
+    def coerce_return(self, E, ex, val, ret, path):
         return None
 
     def param_value(self, E, ex, name, ty, heap, pc):
